@@ -6,6 +6,7 @@ from ..pg import show_lit
 from ..prog import Site
 from .vote import is_f
 from .flow import call_blocks
+from ..idioms import closure_returns
 
 CH = "raft::confchange::changer::Changer"
 PT = "raft::tracker::ProgressTracker"
@@ -108,7 +109,7 @@ def guards(cx):
         okp = okp and bool(clr) and not g.dominated_by_block(p.at, lambda b: b == clr[0].block)
     if not pushes:
         # iterator form: changes.extend(outgoing.iter().filter(|id| !incoming.contains(id) && !learners.contains(id)).map(|id| (*id, Remove)))
-        from ..idioms import closure_returns
+        pass
         for e in ext:
             a1 = call_args(cx, e)[1]
             fl = [x for x in walk(a1) if x[0] == "call" and x[1].endswith("::filter")]
@@ -137,13 +138,23 @@ def guards(cx):
     # apply(): node_id == 0 skipped, at least one voter afterwards, dispatch by change type
     g = cx.pg(apply_)
     disp = {}
+    # `for cc in ccs.iter().filter(|cc| cc.node_id != 0)`: the zero ids are dropped by the iterator itself
+    filt_blocks = set()
+    for sp, s in cx.prog.calls_out[apply_.key]:
+        if s.kind == "call" and sp.endswith("::filter"):
+            fa = call_args(cx, s)
+            if len(fa) == 2 and fa[1][0] == "closure":
+                rr = closure_returns(cx.prog, fa[1][1]) or []
+                if len(rr) == 1 and rr[0][1][0] == "bin" and rr[0][1][1] == "Ne" and ("int", 0) in rr[0][1][2:4] and any(x[0] == "field" and x[2] == "ConfChangeSingle.node_id" for x in walk(rr[0][1])):
+                    filt_blocks.add(s.block)
     for sp, s in cx.prog.calls_out[apply_.key]:
         if s.kind != "call":
             continue
         for l in cx.guard_lits(s):
             if l[0] == "in" and is_f(l[1], "ConfChangeSingle.change_type") and len(l[2]) == 1:
                 disp[list(l[2])[0]] = sp.split("::")[-1]
-                nz = any(x[0] == "notin" and is_f(x[1], "ConfChangeSingle.node_id") and 0 in x[2] for x in cx.guard_lits(s))
+                nz = any(x[0] == "notin" and is_f(x[1], "ConfChangeSingle.node_id") and 0 in x[2] for x in cx.guard_lits(s)) or \
+                    (bool(filt_blocks) and g.dominated_by_block(s.at, lambda b: b in filt_blocks) and any(y[0] == "call" and "Filter" in y[1] and y[1].endswith("::next") for x in cx.guard_lits(s) for y in walk(x[1])))
                 cx.check(nz, "apply:skip-zero:" + sp.split("::")[-1], "changes naming node 0 are skipped", s)
     want = {"AddNode": cx.fn("Changer::make_voter").name, "AddLearnerNode": cx.fn("Changer::make_learner").name, "RemoveNode": cx.fn("Changer::remove").name}
     cx.check(disp == want and len(set(disp.values())) == 3, "apply:dispatch", "apply dispatches AddNode/AddLearnerNode/RemoveNode to three distinct operations (their effects are decided by CHANGER.disjointness) (found %s)" % disp)
